@@ -4,13 +4,13 @@ package ws
 
 import (
 	"bufio"
-	"sort"
 	"bytes"
 	"encoding/base64"
 	"fmt"
 	"io"
 	"net"
 	"net/http"
+	"sort"
 	"strings"
 	"testing"
 	"time"
@@ -61,6 +61,7 @@ func serveOne(ln net.Listener, p hsPlan, out chan<- hsServerResult) {
 	}
 	res.conn = c
 	_ = c.(*net.TCPConn).SetNoDelay(true)
+	_ = c.(*net.TCPConn).SetLinger(0) // closing sends an RST: no TIME_WAIT sockets pile up over thousands of cases
 	_ = c.SetDeadline(time.Now().Add(5 * time.Second))
 	var req []byte
 	buf := make([]byte, 4096)
@@ -262,7 +263,7 @@ func readClientFrame(c net.Conn) (rfc6455.Frame, error) {
 
 func TestC18_Handshake(t *testing.T) {
 	rec := evid.For("C18")
-	rec.SetRule("rapid: 1..3 handshakes on one Stream against a raw TCP server in the harness; response = status {101 (two reason phrases), 200, 400, 426} x Upgrade {websocket in 3 spellings, missing, h2c, near misses: websockets, websocket2, xwebsocket, websocke, WebSocket-Draft76} x Sec-WebSocket-Accept {right, wrong, missing} x header-name case x separator after the colon {' ', '', two spaces, tab, trailing space} x header order permutation x extra headers x piggy-backed frames {none, 1..3 complete messages, last one cut after 1..6 bytes} x segmentation (1..3 cuts, 3 ms apart) x server close at byte j; blocking and asynchronous handshake; between handshakes the previous session may leave a queued Close(1002); oracle: request well-formed with a fresh 16-byte key and the caller's headers; success iff (101 and Upgrade: websocket and correct accept and response fully sent); failure => error and State()==Terminated; after success the messages read are exactly the piggy-backed ones followed by the later ones, and the first frame the server receives is the one the new session wrote; non-trivial = conforming response that is segmented or varied in case/whitespace with >=1 piggy-backed frame, or a second handshake on the same stream; distinct = hash of the plans")
+	rec.SetRule("rapid: 1..3 handshakes on one Stream against a raw TCP server in the harness; response = status {101 (two reason phrases), 200, 400, 426} x Upgrade {websocket in 3 spellings, missing, h2c, near misses: websockets, websocket2, xwebsocket, websocke, WebSocket-Draft76} x Sec-WebSocket-Accept {right, wrong, missing} x header-name case x separator after the colon {' ', '', two spaces, tab, trailing space} x header order permutation x extra headers x piggy-backed frames {none, 1..3 complete messages, last one cut after 1..6 bytes} x segmentation (1..3 cuts, 3 ms apart) x server close at byte j; blocking and asynchronous handshake; between handshakes the previous session may leave a queued Close(1002); oracle: request well-formed with a fresh 16-byte key and the caller's headers; success iff (101 and Upgrade: websocket and correct accept and response fully sent); failure => error, State()==Terminated and the server sees the client's end of the connection (not half-open); after success the messages read are exactly the piggy-backed ones followed by the later ones, and the first frame the server receives is the one the new session wrote; non-trivial = conforming response that is segmented or varied in case/whitespace with >=1 piggy-backed frame, or a second handshake on the same stream; distinct = hash of the plans")
 	segKnown := known.Listed("C18", "response-single-read")
 	vt.Check(t, 400, func(rt *rapid.T) {
 		ln, err := net.Listen("tcp", "127.0.0.1:0")
@@ -364,6 +365,21 @@ func TestC18_Handshake(t *testing.T) {
 				if st := s.State(); st != websocket.StateTerminated {
 					closeServer()
 					rt.Fatalf("handshake #%d failed (%v) but State()=%v, want StateTerminated", round, herr, st)
+				}
+				// not half-open: the client has let go of the connection, the server sees its end (FIN or RST)
+				if sr.conn != nil {
+					_ = sr.conn.SetReadDeadline(time.Now().Add(3 * time.Second))
+					tmp := make([]byte, 4096)
+					for {
+						if _, err := sr.conn.Read(tmp); err != nil {
+							if ne, ok := err.(net.Error); ok && ne.Timeout() {
+								closeServer()
+								_ = s.CloseNextLayer()
+								rt.Fatalf("handshake #%d failed (%v) and the stream reports terminated, but 3 s later the client still holds its connection open (half-open); plan=%s", round, herr, desc[len(desc)-1])
+							}
+							break
+						}
+					}
 				}
 				_ = s.CloseNextLayer()
 				closeServer()
